@@ -120,6 +120,22 @@ CLAIMED["C11"] = (
     "DESIGN.md §5 C11",
 )
 
+CLAIMED["C01"] = (
+    "Kernel-checked theorems over a Lean model of the OPC loader and writer: every part written exactly once for any "
+    "relationship graph (cycles, shared targets), only relationship targets are written, each rewritten rels item holds "
+    "exactly the loaded relationships with the same ids/types/modes and external targets verbatim, internal targets "
+    "resolve back to the same part (via C19's round-trip theorem, any depth), and every part's content type is what the "
+    "reader computes from the content-types item the writer composes (Override/Default, case-insensitive, several parts "
+    "sharing an extension but not a type).  Tied to the code by exact comparison of the saved zip (member order, "
+    "[Content_Types].xml, every rels item, payload identity) and of a second open+save generation with the model on seeded "
+    "random packages fed as stream / path / directory, plus an independent OPC oracle and the corpus decks.",
+    "Trusted: XML codec of rels/content-types items, zipfile and directory readers (runtime, sampled); payload bytes are "
+    "modelled as identity; distinctness of rels-item member names from part names and sortedness/idempotence of the "
+    "second generation are correspondence-only.",
+    "Lean 4 proof (DFS invariants, fold invariants, C19 reuse) + seeded random-package correspondence + OPC oracle",
+    "DESIGN.md §5 C01",
+)
+
 NOT_YET = {}
 
 
